@@ -34,7 +34,10 @@ def _cases(tier, rng, dist):
             v.sort(reverse=rng.random() < 0.5)
         yield {"p": [str(x) for x in v], "m": rng.choice(list(METHODS)), "perm_seed": rng.randint(0, 10**6)}
     # long vectors (hundreds, tens of thousands of hypotheses, heavy ties): the values are still the textbook ones
-    for n in ((300, 1025, 70001) if tier == "quick" else (300, 1025, 4099, 70001, 140001)):
+    from .. import sizes
+    bign = [300, 1025, 70001] if tier == "quick" else [300, 1025, 4099, 70001, 140001]
+    bign += sizes.extra_sizes(["npc"], bign, cap=400000, lo=16)[:4]                # just beyond every integer constant of the source
+    for n in bign:
         for m in METHODS:
             yield {"big": True, "n": n, "m": m, "seed": rng.randint(0, 10**6), "p": [], "perm_seed": 0}
     # unknown method names are rejected whatever the vector: one p-value, many, tied, sorted, all ones, zeros
